@@ -262,10 +262,23 @@ pub mod mapper {
     #[verifier::external_body] pub fn map_user(user: &User) -> (r: RespBytes) { unimplemented!() }
     #[verifier::external_body] pub fn map_raw_pat(token: &Name) -> (r: RespBytes) { unimplemented!() }
 }
+// a string literal as a Name
+pub uninterp spec fn name_of_str(v: &str) -> Name;
 impl<'a> From<&'a str> for Name {
     #[verifier::external_body]
-    fn from(v: &'a str) -> (r: Name) { unimplemented!() }
+    fn from(v: &'a str) -> (r: Name) ensures r == name_of_str(v) { unimplemented!() }
 }
+impl<'a> vstd::std_specs::convert::FromSpecImpl<&'a str> for Name {
+    open spec fn obeys_from_spec() -> bool { true }
+    open spec fn from_spec(v: &'a str) -> Name { name_of_str(v) }
+}
+// A-std: cloning an Identifier copies it
+impl Clone for Identifier {
+    #[verifier::external_body]
+    fn clone(&self) -> (r: Identifier) ensures r == *self { unimplemented!() }
+}
+// h is a digest of some text (and not that text itself)
+pub open spec fn is_digest(h: Name) -> bool { exists|raw: Name| #[trigger] H(raw) == h && h != raw }
 
 // --- the state journal as the credential functions see it: `Arc<StateKind>` -> `StateLog`. The commands handed to
 // `apply` are recorded in a ghost sequence (what FileState::apply does with them is C11/C19's subject). A failed
@@ -287,11 +300,11 @@ impl StateLog {
     { unimplemented!() }
 }
 // the journal grew by nothing, or by exactly one command satisfying p
-pub open spec fn journaled_at_most(a: &StateLog, b: &StateLog, p: spec_fn(EntryCommand) -> bool) -> bool {
-    b.log() == a.log() || exists|c: EntryCommand| b.log() == a.log().push(c) && #[trigger] p(c)
-}
 pub open spec fn journaled_one(a: &StateLog, b: &StateLog, p: spec_fn(EntryCommand) -> bool) -> bool {
-    exists|c: EntryCommand| b.log() == a.log().push(c) && #[trigger] p(c)
+    b.log() == a.log().push(b.log().last()) && p(b.log().last())
+}
+pub open spec fn journaled_at_most(a: &StateLog, b: &StateLog, p: spec_fn(EntryCommand) -> bool) -> bool {
+    b.log() == a.log() || journaled_one(a, b, p)
 }
 
 // --- R8 closure schemas over maps (documented std semantics; iteration order abstracted) ------------------------------
@@ -375,7 +388,7 @@ pub open spec fn valid_token(s: &System, raw: Name, now: IggyTimestamp, uid: u32
         && !expired_at(s.users@[k].personal_access_tokens@[H(raw)], now)
         && s.users@[k].personal_access_tokens@[H(raw)].user_id == uid
 }
-// every field of System except `users` (and the opaque collaborators written on the way) is untouched
+// every field of System except `users` (and the opaque permission tables written on the way) is untouched
 pub open spec fn only_users(a: &System, b: &System) -> bool {
     *b == (System { users: b.users, permissioner: b.permissioner, ..*a })
 }
